@@ -97,6 +97,23 @@ pub struct Obs {
     pub flush_checks: usize,
 }
 
+/// the PEER's view of the link `name`: the handle it attached it with, as long as it has not itself sent a detach
+/// for it (a peer may go on using a link until it has seen - and answered - the library's detach)
+fn peer_side_attached(trace: &[WFrame], name: &str) -> Option<u32> {
+    let mut h: Option<u32> = None;
+    for w in trace.iter().filter(|w| w.dir == Dirn::FromPeer) {
+        match &w.body {
+            Body::Perf(Performative::Attach(a)) if a.name == name => h = Some(a.handle.0),
+            // (the scripted peer mirrors the library's handle numbers: when it answers the attach of another link
+            // with the same number, it has given that number away - no real peer would use it for both)
+            Body::Perf(Performative::Attach(a)) if Some(a.handle.0) == h => h = None,
+            Body::Perf(Performative::Detach(d)) if Some(d.handle.0) == h => h = None,
+            _ => {}
+        }
+    }
+    h
+}
+
 fn peer_err(tag: &str) -> definitions::Error {
     amqp_error(AmqpError::NotAllowed, tag)
 }
@@ -236,7 +253,8 @@ pub async fn scenario(events: Vec<Ev>) -> Obs {
             Ev::PWithholdEnd => c.peer.auto.end && peer_ended.is_none(),
             Ev::PRefuseAttach => !refuse_next_attach && peer_ended.is_none() && !session_over,
             Ev::PTransferUnattached => peer_ended.is_none() && !session_over,
-            Ev::PXfer2 => rcv_handle.is_some() && peer_ended.is_none() && !session_over && peer_xfers < 20,
+            // (also after a local close / drop of the receiver that the peer has not answered yet: transfers that cross it)
+            Ev::PXfer2 => peer_side_attached(&c.peer.trace, "r").is_some() && peer_ended.is_none() && c.peer.sessions.get(&0).map(|s| !s.end_sent).unwrap_or(false) && peer_xfers < 20,
             Ev::PFlowEcho => peer_ended.is_none() && c.peer.sessions.get(&0).map(|s| s.lib_begin_seen && !s.end_sent).unwrap_or(false),
             Ev::PDupAttach => snd_handle.is_some() && peer_detached_s.is_none() && peer_ended.is_none() && !session_over,
         };
@@ -591,7 +609,7 @@ pub async fn scenario(events: Vec<Ev>) -> Obs {
             Ev::PXfer2 => {
                 // (the peer numbers its handles like the library here; the link is still attached from the peer's
                 // side even if the library's end is already on its way)
-                let our = rcv_handle.unwrap_or(1);
+                let our = peer_side_attached(&c.peer.trace, "r").unwrap_or(1);
                 for _ in 0..2 {
                     let t = Transfer {
                         handle: Handle(our),
